@@ -197,6 +197,11 @@ class Driver:
         kw = dict(path=self.data)
         if self.cfg.get("sepmeta"):
             kw["metadata_path"] = self.meta
+        if via_config == "arg_over_config":      # the explicit argument against a configuration that says otherwise
+            conf = dict(kw)
+            conf["type"] = "filesystem"
+            conf["readonly"] = not bool(read_only)
+            return FilesystemStorageBackend(config=conf, memory_cache_mb=mb, read_only=bool(read_only))
         if via_config:
             conf = dict(kw)
             conf["type"] = "filesystem"
@@ -314,7 +319,7 @@ class Driver:
             if "ro" in op:
                 self.ro_mode = bool(op["ro"])
             self.backend = self.open_backend(read_only=(True if self.ro_mode else None),
-                                             via_config=bool(self.cfg.get("ro_via_config")))
+                                             via_config=self.cfg.get("ro_via_config"))
             ev = {"op": "Reopen", "exc": "", "ro": self.ro_mode, "reads": 0, "muts": 0,
                   "same": True, "proj": self.proj_cache(), "cas": [], "mem": []}
             if self.cfg.get("cas"):
@@ -433,7 +438,7 @@ def run_job(job):
             gc.collect()
             if cfg.get("reopen_ro"):
                 d.ro_mode = True
-                d.backend = d.open_backend(read_only=True, via_config=bool(cfg.get("ro_via_config")))
+                d.backend = d.open_backend(read_only=True, via_config=cfg.get("ro_via_config"))
             cfg["pre"] = [e for e in pre_events if e["exc"] == "" and e["op"] in (
                 "Memoize", "WriteMetadata", "ForgetCall", "ForgetFunction", "ForgetEverything")]
             d.cfg = cfg
